@@ -215,8 +215,8 @@ def _copy_inv(ctx):
         ("len", pplen(ctx.st, q) == it),
         ("alloc", ctx.st.alloc == a0 + it),
         ("q_is_fresh", z3.And(q.term == a0 - 1)),
-        ("frames_fresh", forall_range(0, it, lambda j: ppat(ctx.st, q, j) == a0 + j)),
-        ("frames_equal", forall_range(0, it, lambda j: same_frame_fields(ctx.st, a0 + j, ctx.old, ppat(ctx.old, p, j)))),
+        ("frames_fresh", forall_range(0, it, lambda j: ppat(ctx.st, q, j) == a0 + j, pattern=lambda j: ppat(ctx.st, q, j))),
+        ("frames_equal", forall_range(0, it, lambda j: same_frame_fields(ctx.st, ppat(ctx.st, q, j), ctx.old, ppat(ctx.old, p, j)), pattern=lambda j: ppat(ctx.st, q, j))),
         ("old_objects_untouched", unchanged_below(ctx, sys_fields(), ctx.old.alloc)),
         ("other_paths_untouched", z3.And(
             ctx.st.heap["Path.pp"] == z3.Store(ctx.pre.heap["Path.pp"], q.term, z3.Select(ctx.st.heap["Path.pp"], q.term)),
@@ -233,7 +233,7 @@ def _copy_post(ctx):
     ok_len = n <= fld(ctx.old, "Path.maxlen", p.term)
     parts = [
         ("fresh_path", q.term == a0), ("len", pplen(ctx.st, q) == n),
-        ("frames_fresh_equal", forall_range(0, n, lambda j: z3.And(ppat(ctx.st, q, j) == a0 + 1 + j, same_frame_fields(ctx.st, a0 + 1 + j, ctx.old, ppat(ctx.old, p, j))))),
+        ("frames_fresh_equal", forall_range(0, n, lambda j: z3.And(ppat(ctx.st, q, j) == a0 + 1 + j, same_frame_fields(ctx.st, ppat(ctx.st, q, j), ctx.old, ppat(ctx.old, p, j))), pattern=lambda j: ppat(ctx.st, q, j))),
         ("old_frames_untouched", unchanged_below(ctx, sys_fields(), a0)),
         ("old_paths_untouched", unchanged_below(ctx, ["Path.pp", "Path.pp#len", "Path.maxlen", "Path.status", "Path.time_origin", "Path.generated0", "Path.weights", "Path.path_number"], a0)),
         ("attrs", z3.And(*[fld(ctx.st, "Path." + f, q.term) == fld(ctx.old, "Path." + f, p.term) for f in ("status", "time_origin", "generated0", "maxlen", "path_number", "weights")])),
@@ -281,8 +281,8 @@ def _iadd_inv(ctx):
         ("len", pplen(ctx.st, p) == n0 + it),
         ("fits", z3.Implies(it > 0, n0 + it <= cap)),
         ("alloc", ctx.st.alloc == a0 + it),
-        ("prefix_kept", forall_range(0, n0, lambda j: ppat(ctx.st, p, j) == ppat(ctx.old, p, j))),
-        ("new_frames", forall_range(0, it, lambda j: z3.And(ppat(ctx.st, p, n0 + j) == a0 + j, same_frame_fields(ctx.st, a0 + j, ctx.old, ppat(ctx.old, o, j))))),
+        ("prefix_kept", forall_range(0, n0, lambda j: ppat(ctx.st, p, j) == ppat(ctx.old, p, j), pattern=lambda j: ppat(ctx.st, p, j))),
+        ("new_frames", forall_range(n0, n0 + it, lambda t: z3.And(ppat(ctx.st, p, t) == a0 + (t - n0), same_frame_fields(ctx.st, ppat(ctx.st, p, t), ctx.old, ppat(ctx.old, o, t - n0))), pattern=lambda t: ppat(ctx.st, p, t))),
         ("only_self_pp", _pp_only_changed_at(ctx, p, ctx.old)),
         ("old_frames_untouched", unchanged_below(ctx, sys_fields(), a0)),
     ]
@@ -298,8 +298,8 @@ def _iadd_post(ctx):
     return [
         ("returns_self", ctx.result.term == p.term),
         ("len", pplen(ctx.st, p) == n0 + k),
-        ("prefix_kept", forall_range(0, n0, lambda j: ppat(ctx.st, p, j) == ppat(ctx.old, p, j))),
-        ("appended_are_fresh_copies", forall_range(0, k, lambda j: z3.And(ppat(ctx.st, p, n0 + j) == a0 + j, same_frame_fields(ctx.st, a0 + j, ctx.old, ppat(ctx.old, o, j))))),
+        ("prefix_kept", forall_range(0, n0, lambda j: ppat(ctx.st, p, j) == ppat(ctx.old, p, j), pattern=lambda j: ppat(ctx.st, p, j))),
+        ("appended_are_fresh_copies", forall_range(n0, n0 + k, lambda t: z3.And(ppat(ctx.st, p, t) == a0 + (t - n0), same_frame_fields(ctx.st, ppat(ctx.st, p, t), ctx.old, ppat(ctx.old, o, t - n0))), pattern=lambda t: ppat(ctx.st, p, t))),
         ("only_self_pp", _pp_only_changed_at(ctx, p, ctx.old)),
         ("old_frames_untouched", unchanged_below(ctx, sys_fields(), a0)),
         ("scalars_untouched", unchanged(ctx, PATH_SCALARS)),
